@@ -11,3 +11,4 @@ INVARIANT Unbounded
 INVARIANT Boundaries
 INVARIANT ShelleyAllegra
 INVARIANT DefectsNamed
+INVARIANT FlagIrrelevant
